@@ -809,6 +809,18 @@ def _unfold_stmt(s: ast.stmt) -> Optional[list]:
         tgt, val, ann = s.target.id, s.value, s.annotation
     elif isinstance(s, ast.Return) and isinstance(s.value, (ast.ListComp, ast.DictComp, ast.SetComp)):
         tgt, val, ann = '__unfolded', s.value, None
+    elif isinstance(s, ast.Return) and isinstance(s.value, ast.Call) and isinstance(s.value.func, ast.Name) and s.value.func.id in ('frozenset', 'set', 'list', 'tuple') \
+            and len(s.value.args) == 1 and not s.value.keywords and isinstance(s.value.args[0], (ast.GeneratorExp, ast.ListComp, ast.SetComp)) and gens_ok(s.value.args[0]):
+        # `return frozenset(<genexp>)`: collect into a local of the corresponding mutable kind, return the wrapper of it
+        g0 = s.value.args[0]
+        kind = ast.SetComp if s.value.func.id in ('frozenset', 'set') else ast.ListComp
+        conv = _unfold_stmt(ast.copy_location(ast.Assign(targets=[ast.Name(id='__unfolded', ctx=ast.Store())],
+                                                         value=ast.copy_location(kind(elt=g0.elt, generators=g0.generators), g0)), s))
+        if conv is None:
+            return None
+        wrapped = ast.Name(id='__unfolded', ctx=ast.Load()) if s.value.func.id in ('set', 'list') else \
+            ast.Call(func=ast.Name(id=s.value.func.id, ctx=ast.Load()), args=[ast.Name(id='__unfolded', ctx=ast.Load())], keywords=[])
+        return conv + [ast.copy_location(ast.Return(value=wrapped), s)]
     if tgt is None or not isinstance(val, (ast.ListComp, ast.DictComp, ast.SetComp)) or not gens_ok(val):
         return None
     if tgt in _names(val):
@@ -872,8 +884,10 @@ def canonicalise(modname: str, tree: ast.Module) -> dict:
                 break
         now_loops = sum(1 for n in ast.walk(fn) if isinstance(n, ast.For))
         if now_loops < known['for_loops']:
-            stats['unfolded'] = stats.get('unfolded', 0) + _unfold_comprehensions(fn)     # a loop of today's tree was turned into a comprehension
-            now_loops = sum(1 for n in ast.walk(fn) if isinstance(n, ast.For))
+            nu = _unfold_comprehensions(fn)     # a loop of today's tree was turned into a comprehension
+            stats['unfolded'] = stats.get('unfolded', 0) + nu
+            if nu:
+                continue                        # do not fold them back
         stats['collected'] += _collect_loops(fn, kl, may_fold_all=now_loops > known['for_loops'])
     ast.fix_missing_locations(tree)
     return stats
